@@ -67,7 +67,7 @@ func flatten0(t types.Type) []Leaf {
 			{"#arr", sInt, nil, lkSliceArr},
 			{"#off", sInt, nil, lkSliceOff},
 			{"#len", sInt, nil, lkSliceLen},
-			{"#cap", sInt, nil, lkSliceCap},
+			{"#cap", sInt, t, lkSliceCap}, // T = the slice type (for the element size)
 		}
 	case *types.Struct:
 		var out []Leaf
@@ -269,7 +269,7 @@ func typeFacts(v Value) []Term {
 				mkCmp(">=", off, tZero),
 				mkCmp(">=", ln, tZero),
 				mkCmp("<=", ln, cp),
-				mkCmp("<=", cp, Term{"9223372036854775807", sInt}),
+				mkCmp("<=", cp, Term{maxSliceCap(l, leaves, i), sInt}),
 				mkImplies(mkEq(arr, tZero), mkAnd(mkEq(cp, tZero), mkEq(off, tZero))),
 			)
 		case lkPlain:
@@ -303,4 +303,17 @@ func shortType(t types.Type) string {
 func sanitize(s string) string {
 	r := strings.NewReplacer(" ", "_", "|", "!", "\\", "!", "(", "<", ")", ">")
 	return r.Replace(s)
+}
+
+// maxSliceCap bounds the capacity of a slice by the address space: cap * elemsize <= MaxInt64.
+func maxSliceCap(l Leaf, leaves []Leaf, i int) string {
+	if i+3 < len(leaves) && leaves[i+3].T != nil {
+		if sl, ok := leaves[i+3].T.Underlying().(*types.Slice); ok {
+			sz := elemSize(sl.Elem())
+			if sz > 1 {
+				return fmt.Sprintf("%d", int64(9223372036854775807)/sz)
+			}
+		}
+	}
+	return "9223372036854775807"
 }
